@@ -240,6 +240,69 @@ func genMixedUniverse(t *rapid.T) *ugen.Universe {
 	return u
 }
 
+// touchAllInstance builds an object that mentions every name the map-valued keywords of s talk
+// about (so that several entries of one map apply to the same instance), then drops one of them
+// half of the time (so that one entry is met and another is not).
+func touchAllInstance(t *rapid.T, s *jv.V, depth int) *jv.V {
+	small := func() *jv.V { return jv.Gen(jv.Opts{MaxDepth: 1, MaxLen: 2}).Draw(t, "touchval") }
+	if s == nil || s.K != jv.Obj {
+		return small()
+	}
+	var names []string
+	seen := map[string]bool{}
+	add := func(n string) {
+		if !seen[n] {
+			seen[n] = true
+			names = append(names, n)
+		}
+	}
+	for _, kw := range []string{"properties", "dependentRequired", "dependentSchemas", "dependencies"} {
+		if m := s.Get(kw); m != nil && m.K == jv.Obj {
+			for _, e := range m.O {
+				add(e.K)
+				if e.V.K == jv.Arr {
+					for _, r := range e.V.A {
+						if r.K == jv.Str {
+							add(r.S)
+						}
+					}
+				}
+			}
+		}
+	}
+	if r := s.Get("required"); r != nil && r.K == jv.Arr {
+		for _, e := range r.A {
+			if e.K == jv.Str {
+				add(e.S)
+			}
+		}
+	}
+	if len(names) == 0 {
+		return small()
+	}
+	drop := -1
+	if rapid.Bool().Draw(t, "touchdrop") {
+		drop = rapid.IntRange(0, len(names)-1).Draw(t, "touchdropidx")
+	}
+	o := jv.ObjV()
+	props := s.Get("properties")
+	for i, n := range names {
+		if i == drop {
+			continue
+		}
+		var ps *jv.V
+		if props != nil && props.K == jv.Obj {
+			ps = props.Get(n)
+		}
+		if ps != nil && depth > 0 && rapid.Bool().Draw(t, "touchdescend") {
+			o.Set(n, touchAllInstance(t, ps, depth-1))
+		} else {
+			o.Set(n, small())
+		}
+	}
+	return o
+}
+
 func multiEntryMaps(v *jv.V) int {
 	n := 0
 	v.Walk(func(x *jv.V) {
@@ -304,6 +367,10 @@ func TestC14(t *testing.T) {
 			lens := rapid.SampledFrom([]sgen.Lens{sgen.LensObject, sgen.LensObject, sgen.LensUneval, sgen.LensAny}).Draw(t, "lens")
 			c.Doc = sgen.Draw(t, sgen.Opts{Draft: d, MaxDepth: 3, Lens: lens})
 			c.Instances = sgen.Instances(t, c.Doc, 3)
+			if multiEntryMaps(c.Doc) > 0 {
+				// one instance under which several entries of the same map keyword apply at once
+				c.Instances[2] = touchAllInstance(t, c.Doc, 2)
+			}
 			stripUnsafeMultipleOf(c.Doc, c.Instances)
 		}
 		for _, v := range c.Instances {
